@@ -100,8 +100,8 @@ fn check_line(line: &Line, acc: &mut Acc) {
             Err(p) => acc.violation(format!("panic:{}", panic_site(&p)), printed.len(), || (p.clone(), case("alone", p.clone()))),
         }
     }
-    // (ii) inside a file between two other records
-    for term in [&b"\n"[..], b"\r\n"] {
+    // (ii) inside a file between two other records ("with any line terminator": LF, CRLF, lone CR, blank lines between)
+    for term in [&b"\n"[..], b"\r\n", b"\r", b"\n\n"] {
         buf.clear();
         buf.extend_from_slice(b"p.Q -> q:");
         buf.extend_from_slice(term);
